@@ -60,6 +60,20 @@ CLAIMED.update({
                           'partial operation (instance / FSM transition tables, empty candidate list) raises err.'),
 })
 
+CLAIMED['C06'] = dict(
+    engine='Failure',
+    technique='TLA+ spec Failure.tla (handler job sets vs reference FailureRef) exhausted by TLC + every transition '
+              'executed on the real RunningFailureHandler + TLC monitors (FailureMon, FailureE2E) over recorded outcomes '
+              'of object-level replays and of instance-loss / crash scenarios on real cores',
+    text='All notification histories of the handler are exhausted in the model (finite state) against the precedence '
+         'rule; each (state, operation) pair is executed on the real handler and judged by TLC; the end-to-end effect '
+         '(Master only, one action per strategy, final placement) is judged by TLC on scenario summaries recorded from '
+         '3-instance real clusters with the loss injected for each strategy / placement / victim.',
+    design_ref='DESIGN.md 3 C06',
+    note='Trusted: state injection through the public job sets of the handler, recorded Starter/Stopper entry points '
+         '(object level); SimCluster (end to end). Known finding F16 (loss of the Master itself) exempted by a TLA+ '
+         'signature.')
+
 PENDING_REASON = 'check not built yet (work in progress; see DESIGN.md section 3)'
 
 
